@@ -60,11 +60,15 @@ def transfer(I, fr, t, c, pth):
         v = fr.operand(args[0])
         if isinstance(v, Ref):
             v = fr._project(fr.store.get(v.root, TOP), v.proj)
+        if v is TOP:
+            v = fr.deref_operand(args[0])
         words = None
         if isinstance(v, Agg) and len(v.items) == 1 and isinstance(v.items[0], Agg):
             words = v.items[0].items
         elif isinstance(v, Agg):
             words = v.items
+        if words and all(isinstance(w, Int) for w in words):
+            words = [exp.bv_of_int(w.v) for w in words]
         if words and all(isinstance(w, BV) for w in words):
             ent = []
             for w in reversed(words):
